@@ -12,6 +12,8 @@ import (
 	"golang.org/x/tools/go/ssa"
 )
 
+var thoroughTier bool
+
 type Obligation struct {
 	Name  string
 	Kind  string
@@ -70,6 +72,8 @@ type Exec struct {
 	effCache     map[*ssa.Function]*WriteSet
 	effBusy      map[*ssa.Function]bool
 	curPos       token.Pos
+	prevTop      string
+	bvArith      bool
 	natDone      map[string]bool
 	natTerms     map[int][][2]string
 }
@@ -122,6 +126,9 @@ func (x *Exec) oblige(st *State, kind, label, what string, goal string, pos toke
 	}
 	if goal == "true" || st.pc == "false" {
 		return
+	}
+	if strings.HasSuffix(label, "@thorough") && !thoroughTier {
+		return // expensive obligation: generated in the thorough tier only
 	}
 	fn := "?"
 	if len(x.stack) > 0 {
@@ -442,12 +449,11 @@ func (x *Exec) enterLoop(f *frame, li *loopInfo, st *State) {
 	if ws.all {
 		panic(unsupported("loop %d in %s calls code with unbounded effects", li.ord, f.fn))
 	}
+	x.prevTop = st.allocTop
 	top := x.sc.declare("top", "Int")
 	x.sc.assume("(>= " + top + " " + st.allocTop + ")")
 	st.allocTop = top
-	for _, k := range ws.sortedKeys() {
-		x.havocKey(st, k, x.compInfoOfKey(k))
-	}
+	x.havocKeys(st, ws.sortedKeys())
 	for _, b := range rpo(f.fn) {
 		if !li.body[b] {
 			continue
@@ -851,7 +857,7 @@ func (x *Exec) checkPost(f *frame, st *State, vals []*Val, pos token.Pos) {
 		return
 	}
 	for _, cl := range f.ctr.Ensures {
-		args := x.clauseArgs(f.ctr, cl, f.args, f.bindings, vals, nil)
+		args := x.clauseArgs(f.ctr, cl, f.args, x.bindingValues(st, f.fn, f.bindings), vals, nil)
 		g := x.evalClauseFn(cl.Fn, args, st, f.old)
 		x.oblige(st, "post", cl.Label, clauseName(cl), g, pos)
 	}
